@@ -81,6 +81,15 @@ theorem ratio_pII_step_feasible (p : Ratio.Par) (rows : List Ratio.Row) (hpv : p
        ((pII p rows).lvstat = Ratio.statUpper ∧ c.u ≠ p.inf ∧ newx p c t = c.u)) :=
   pII_bchange_sound p rows hpv hpf hfeas h
 
+open Qsx.Ratio in
+/-- among the rows that reach their bound no later than the chosen step the leaving row has the
+largest pivot element -/
+theorem ratio_pII_largest_pivot (p : Ratio.Par) (rows : List Ratio.Row) (hpv : p.pivtol = 0) (hpf : p.pftol = 0)
+    (hfeas : ∀ r ∈ rows, inBounds p 0 r r.x) (h : (pII p rows).stat = .bchange) :
+    ∀ (j : Nat) (r : Ratio.Row), rows[j]? = some r → r.y ≠ 0 → ratio2 p r ≤ absR (pII p rows).tz →
+      absR r.y ≤ absR (pII p rows).pivot :=
+  pII_bchange_largest_pivot p rows hpv hpf hfeas h
+
 /-- the hypotheses are satisfiable and the three outcomes occur: two rows, increasing entering
 column; row 0 blocks at 3/2, row 1 at 2 -/
 example :
